@@ -10,8 +10,8 @@ from gen import c05_xnorth as trx
 from gen import c05_assemble as tra
 
 ID = "C05"
-PROPS_FILES = ["Gama/Props/C05.lean", "Gama/Props/C05Consistency.lean", "Gama/Props/C05Cut.lean"]
-LEAN_TARGETS = ["Gama.Props.C05", "Gama.Props.C05Consistency", "Gama.Props.C05Cut"]
+PROPS_FILES = ["Gama/Props/C05.lean", "Gama/Props/C05Consistency.lean", "Gama/Props/C05Cut.lean", "Gama/Props/C05Total.lean"]
+LEAN_TARGETS = ["Gama.Props.C05", "Gama.Props.C05Consistency", "Gama.Props.C05Cut", "Gama.Props.C05Total"]
 DRIVERS = ["drv_lin"]
 RULE = ("small in-memory networks (2-5 points, 1-2 stand-points, 3-9 observations) over all 13 observation classes x "
         "8 axes codes x 2 angle senses x bearing quadrants/near-axis bearings x free/fixed/constrained/unused mixes x "
